@@ -29,11 +29,13 @@ func (pass *RetypeObject) processObject(_ *Visitor, _ *ast.Schema, object ast.Ob
 
 	trailMessage := fmt.Sprintf("RetypeObject[%s → %s]", ast.TypeName(object.Type), ast.TypeName(pass.As))
 
-	object.Type = pass.As
+	// every matching object gets its own copy of the type: later passes rewrite
+	// types in place.
+	object.Type = pass.As.DeepCopy()
 	object.AddToPassesTrail(trailMessage)
 
 	if pass.Comments != nil {
-		object.Comments = pass.Comments
+		object.Comments = append([]string(nil), pass.Comments...)
 	}
 
 	return object, nil
